@@ -281,7 +281,21 @@ pub fn pair_replies<'a>(
                 }
                 let w = crate::exec::Wire { idx, t: *t, seq: *seq, src: *src, dst: *dst, bytes, msg, queued: true };
                 let tid = w.msg.as_ref().map(|m| m.t.clone()).unwrap_or_default();
-                if let Some(pos) = open.iter().position(|q| q.src == *dst && q.msg.as_ref().map(|m| m.t == tid).unwrap_or(false)) {
+                // candidates: unanswered delivered queries from that address with that id; prefer
+                // well-formed ones (malformed ones are never answered), then the most recent
+                let cands: Vec<usize> = open
+                    .iter()
+                    .enumerate()
+                    .filter(|(_, q)| q.src == *dst && q.msg.as_ref().map(|m| m.t == tid).unwrap_or(false))
+                    .map(|(i, _)| i)
+                    .collect();
+                let best = cands
+                    .iter()
+                    .rev()
+                    .find(|i| open[**i].msg.as_ref().map(crate::krpc::well_formed_query).unwrap_or(false))
+                    .or(cands.last())
+                    .copied();
+                if let Some(pos) = best {
                     let q = open.remove(pos);
                     pairs.push((q, w));
                 } else {
